@@ -149,7 +149,13 @@ enum PEv {
     Changed(&'static str, u32),
     Invalidated(&'static str),
     Other(&'static str, u32),
+    /// one signal naming several properties as invalidated, in this order (the uncached one among them)
+    InvMany(&'static [&'static str]),
+    /// one signal changing A and the uncached property and invalidating B
+    Mixed(u32),
 }
+
+const INV_LISTS: [&[&str]; 6] = [&["Unc", "A"], &["A", "Unc"], &["Unc", "A", "B"], &["B", "Unc", "A"], &["A", "B"], &["Unc"]];
 
 fn pc_signal(bus: &mut FakeBus, iface: &str, changed: Vec<(&str, RVal)>, invalidated: Vec<&str>) {
     let dict = RVal::Dict(RSig::S, RSig::V, changed.into_iter().map(|(k, v)| (RVal::S(k.into()), RVal::V(Box::new((v.sig(), v))))).collect());
@@ -170,7 +176,9 @@ pub fn c31_case(src: &mut Src, obs: &mut Obs) -> CaseResult {
     let mut b = 100 + src.below(50) as u32;
     let mut unc = 200u32;
     let gen_ev = |src: &mut Src, k: u32| -> PEv {
-        match src.weighted(&[5, 3, 2, 2, 2]) {
+        match src.weighted(&[5, 3, 2, 2, 2, 2, 1]) {
+            5 => PEv::InvMany(INV_LISTS[src.below(INV_LISTS.len())]),
+            6 => PEv::Mixed(4000 + k),
             0 => PEv::Changed("A", 1000 + k),
             1 => PEv::Changed("B", 2000 + k),
             2 => PEv::Changed("Unc", 3000 + k),
@@ -200,12 +208,18 @@ pub fn c31_case(src: &mut Src, obs: &mut Obs) -> CaseResult {
         PEv::Changed("A", v) => *a = *v,
         PEv::Changed("B", v) => *b = *v,
         PEv::Changed(_, v) => *unc = *v,
+        PEv::Mixed(v) => {
+            *a = *v;
+            *unc = *v + 1;
+        }
         _ => {}
     };
     let emit = |bus: &mut FakeBus, ev: &PEv| match ev {
         PEv::Changed(n, v) => pc_signal(bus, "c31.I", vec![(*n, RVal::U(*v))], vec![]),
         PEv::Invalidated(n) => pc_signal(bus, "c31.I", vec![], vec![*n]),
         PEv::Other(n, v) => pc_signal(bus, "c31.Other", vec![(*n, RVal::U(*v))], vec![]),
+        PEv::InvMany(l) => pc_signal(bus, "c31.I", vec![], l.to_vec()),
+        PEv::Mixed(v) => pc_signal(bus, "c31.I", vec![("Unc", RVal::U(*v + 1)), ("A", RVal::U(*v))], vec!["Unc", "B"]),
     };
     let oc = sched.run(&mut || sch.next(), 400_000, &mut |s| {
         for i in bus.peer.pump() {
@@ -243,6 +257,18 @@ pub fn c31_case(src: &mut Src, obs: &mut Obs) -> CaseResult {
                                 PEv::Changed("B", v) => expect_b = Some(*v),
                                 PEv::Invalidated("A") => expect_a = None,
                                 PEv::Invalidated("B") => expect_b = None,
+                                PEv::InvMany(l) => {
+                                    if l.contains(&"A") {
+                                        expect_a = None;
+                                    }
+                                    if l.contains(&"B") {
+                                        expect_b = None;
+                                    }
+                                }
+                                PEv::Mixed(v) => {
+                                    expect_a = Some(*v);
+                                    expect_b = None;
+                                }
                                 _ => {}
                             }
                         }
@@ -286,6 +312,18 @@ pub fn c31_case(src: &mut Src, obs: &mut Obs) -> CaseResult {
                 PEv::Changed("B", v) => expect_b = Some(*v),
                 PEv::Invalidated("A") => expect_a = None,
                 PEv::Invalidated("B") => expect_b = None,
+                PEv::InvMany(l) => {
+                    if l.contains(&"A") {
+                        expect_a = None;
+                    }
+                    if l.contains(&"B") {
+                        expect_b = None;
+                    }
+                }
+                PEv::Mixed(v) => {
+                    expect_a = Some(*v);
+                    expect_b = None;
+                }
                 _ => {}
             }
         }
